@@ -29,7 +29,8 @@ def tname(v):
 
 
 class Scenario:
-    def __init__(self, symbolic=(), wrapper=False, simp_func=True, n=2, scalar_at=None, foreign_at=None):
+    def __init__(self, symbolic=(), wrapper=False, simp_func=True, n=2, scalar_at=None, foreign_at=None, foreign_kind="basis"):
+        self.foreign_kind = foreign_kind
         self.symbolic, self.wrapper, self.simp_func, self.n = set(symbolic), wrapper, simp_func, n
         self.scalar_at, self.foreign_at = scalar_at, foreign_at
 
@@ -65,14 +66,23 @@ def run_entry(repo, qual: str, sc: Scenario):
             return Unk("compare")
         return compare
 
-    def new_algebra(name):
+    def new_algebra(name, signature=(1, 1, -1), basis=()):
+        # the fields a compatibility check could look at are all there; `==` between two algebra stand-ins is False
+        # unless they are the same object (what Algebra.__eq__ itself separates is decided by C14.eq-fields)
         a = Obj("algebra", {"wrapper": (Obj("wrapper", call=lambda f: f) if sc.wrapper else None),
                             "simp_func": (Obj("simp_func", call=lambda v: v) if sc.simp_func else None),
-                            "numspace": numspace, "fmt": name, "codegen_symbolcls": None})
+                            "numspace": numspace, "fmt": name, "codegen_symbolcls": None,
+                            "signature": list(signature), "basis": list(basis), "d": len(signature),
+                            "p": sum(1 for x in signature if x == 1), "q": sum(1 for x in signature if x == -1),
+                            "r": sum(1 for x in signature if x == 0), "start_index": 1, "cse": True, "graded": False})
         a.methods["compare"] = alg_compare(a)
+        a.methods["__len__"] = lambda: 2 ** len(signature)
         return a
     alg = new_algebra("ALG")
-    foreign = new_algebra("FOREIGN")
+    if getattr(sc, "foreign_kind", "basis") == "basis":
+        foreign = new_algebra("FOREIGN", basis=("e", "e2", "e3", "e1", "e23", "e31", "e12", "e123"))   # same metric, other basis
+    else:
+        foreign = new_algebra("FOREIGN", signature=(1, -1, 1))                                      # same (p, q, r), other metric
 
     def getitem(key):
         log["lookups"].append(tname(key))
